@@ -9,19 +9,20 @@ env = dict(os.environ, PYTHONDONTWRITEBYTECODE='1')
 def sh(cmd, **kw):
     return subprocess.run(cmd, shell=True, text=True, capture_output=True, env=env, **kw)
 
-names = sys.argv[1:] or sorted(p.name for p in Path('/verif/seeded').iterdir() if p.is_dir())
+names = sys.argv[1:] or sorted(p.name for p in Path('/verif/seeded').iterdir() if p.is_dir() and not p.name.startswith('keep'))
 bad = []
 for name in names:
     d = Path('/verif/seeded') / name
     m = json.loads((d / 'meta.json').read_text())
     ID = name.split('-')[0]
     checks = [ID] + [c for c in m.get('detected_by', []) if c != ID]
+    checks += [c for c in os.environ.get('SEED_CHECKS', '').split() if c not in checks]
     rw = f'/tmp/seedreg_{name}'
     sh(f'git -C /repo worktree remove --force {rw}')
     if sh(f'git -C /repo worktree add -q --detach {rw} HEAD').returncode:
         print(name, 'WORKTREE FAILED'); bad.append(name); continue
     try:
-        if sh(f'git -C {rw} apply {d}/patch.diff').returncode:
+        if sh(f'git -C {rw} apply {d}/patch.diff').returncode and sh(f'git -C {rw} apply --3way {d}/patch.diff').returncode:
             print(name, 'PATCH NO LONGER APPLIES'); bad.append(name); continue
         caught = {}
         for c in checks:
